@@ -580,7 +580,7 @@ pub fn run(tier: Tier, seed: u64) -> i32 {
     let ctx = Ctx::new(ID, tier, seed);
     ctx.replay_corpus(&check_case);
     // generated grammars: exhaustive input orders + random histories
-    let n = ctx.pick(30_000, 400_000);
+    let n = ctx.pick(100_000, 600_000);
     let olen = ctx.pick(3, 4);
     ctx.par_random(n, 260, 13, |tape, l| {
         let (g, pool, steps) = gen_case(tape);
